@@ -108,7 +108,17 @@ func (t *runTarget) Evaluate(engine runner.Engine) error {
 		return nil
 	}
 
-	// Otherwise, evaluate the target.
+	// Otherwise, evaluate the target. Before its body can touch any file, record that the target
+	// must be re-run, so that a run that is interrupted before its result is recorded is never
+	// mistaken for up-to-date.
+	if IsTarget(label) {
+		inProgress := info
+		inProgress.Rerun = true
+		if err := proj.saveTargetInfo(label, inProgress); err != nil {
+			proj.events.TargetFailed(label, err)
+			return err
+		}
+	}
 	verifPoint("target.body.before", label.String())
 	data, changed, err := t.target.evaluate()
 	verifPoint("target.body.after", label.String())
